@@ -26,6 +26,7 @@ EVIDENCE = os.environ.get("VK_EVIDENCE", os.path.join(ROOT, "evidence"))
 REPLAYS = os.environ.get("VK_REPLAYS", os.path.join(ROOT, "replays"))
 KNOWN = os.path.join(ROOT, "KNOWN_FINDINGS.txt")
 BUILD = os.environ.get("VK_BUILD", os.path.join(ROOT, ".build"))
+XSIM_PROPS = {"C01", "C07", "C08", "C09", "C10", "C11", "C18"}
 
 
 def log(*a):
@@ -54,6 +55,8 @@ def unit_templates():
     out = {}
     for p in sorted(glob.glob(os.path.join(CONTRACTS, "*.rs"))):
         t = U.Template(p)
+        if t.exec:
+            continue
         out[t.unit] = t
     return out
 
@@ -317,6 +320,17 @@ def evaluate(prop, tier, tmpls, unit_cache, kani_cache):
     kres = []
     if kgroups:
         kres = K.run_groups(prop, kgroups, tier, log, kani_cache)
+    # bounded executable stand-in for the scheduler kernel (never counted as proof)
+    xs = None
+    if prop in XSIM_PROPS:
+        if "__xsim__" not in unit_cache:
+            from . import xsim as X
+            log("[%s] bounded stand-in xsim (real text + executable stubs, exhaustive up to the bound) …" % prop)
+            unit_cache["__xsim__"] = X.run(tier, BUILD)
+            x = unit_cache["__xsim__"]
+            log("[%s]   xsim: %s scenarios, %d failing checks, %.1fs%s" % (prop, x["scenarios"], len(x["failures"]), x["wall_s"],
+                                                                         " UNAVAILABLE: " + x["undecided"] if x["undecided"] else ""))
+        xs = unit_cache["__xsim__"]
     known, fixed = load_known()
     violations, known_hits, undecided = [], [], []
     all_fail = []
@@ -329,6 +343,45 @@ def evaluate(prop, tier, tmpls, unit_cache, kani_cache):
         undecided += ["kani %s: %s" % (kr["harness"], u) for u in kr["undecided"]]
         for f in kr["failures"]:
             all_fail.append((f, kr))
+    xfails = []
+    if xs and xs["ok"]:
+        for xf in xs["failures"]:
+            if prop in xf["props"].split(","):
+                xfails.append(xf)
+    if xfails:
+        # a concrete scenario on which the real text contradicts the property statement (bounded search):
+        # it becomes the failing input of the obligations Verus refuted for this property, and a
+        # violation of its own when the proof route is undecided or silent
+        inp = "\n".join("check %s failed on %d scenario(s); first one:\n  scenario: %s\n  observed: %s" % (
+            xf["check"], xf["count"], json.dumps(xf["scenario"]), xf["detail"]) for xf in xfails)
+        inp += "\n(found by exhaustive bounded exploration of the real text of the scheduler kernel against executable stubs: " + xs["bound"] + ")"
+        for f, r in all_fail:
+            if f.input is None and f.backend == "verus":
+                f.input = inp
+        # the first counterexample is also replayed against the REAL crate through its public API
+        real = None
+        if os.environ.get("VK_NO_REAL_REPLAY") != "1":
+            key = "__real__" + xfails[0]["check"]
+            if key not in unit_cache:
+                from . import realreplay as RR
+                try:
+                    unit_cache[key] = RR.run(xfails[0], lambda *a: log("[%s]   " % prop + " ".join(a)))
+                except Exception as e:       # best effort
+                    unit_cache[key] = {"ok": False, "text": "real-crate replay failed: %r" % (e,)}
+            real = unit_cache[key]
+            tag = ("REPRODUCED on the real crate" if real["ok"] else "not reproduced on the real crate (see text)")
+            inp += "\n\nreplay against the real crate: %s\n%s" % (tag, real["text"])
+            for f, r in all_fail:
+                if f.backend == "verus" and f.input is not None:
+                    f.input = inp
+        for xf in xfails:
+            f = Failure("xsim", xf["check"], "bounded", xf["check"], xf["detail"], set(xf["props"].split(",")),
+                        "bounded executable stand-in: " + xs["cmd"], 0, backend="rustc+native run (bounded)")
+            f.input = "scenario: %s\nobserved: %s\nbound: %s" % (json.dumps(xf["scenario"]), xf["detail"], xs["bound"])
+            if real is not None and xf is xfails[0]:
+                f.input += "\n\nreplay against the real crate: %s\n%s" % (tag, real["text"])
+            f.scenario = xf
+            all_fail.append((f, {"drift": {r["unit"]: r["drift"] for r in results if r["drift"]}, "path": os.path.join(BUILD, "xsim_unit.rs")}))
     for f, r in all_fail:
         k = [x for x in known if x["property"] == prop and x["obligation"] == f.oid]
         if k:
@@ -391,6 +444,9 @@ def evaluate(prop, tier, tmpls, unit_cache, kani_cache):
             "solver_seconds": round(smt_ms / 1000.0 + sum(k["seconds"] for k in kres), 2),
             "kani": [{k: v for k, v in kr.items() if k not in ("failures",)} for kr in kres],
             "known_findings_hit": [f.oid for f, _ in known_hits],
+            "bounded_stand_in": ({"what": "contracts/xsim.rs: real text of Simulation::{step,step_until,process,run,step_to_next_bounded,step_until_unchecked}, util/priority_queue.rs and util/seq_futures.rs cut from /repo with no rewrite rule, compiled against executable stubs, run on every scenario up to the bound and compared with the property statements. LABELLED BOUNDED: not part of obligations/discharged.",
+                                  "scenarios": xs["scenarios"], "bound": xs["bound"], "failing_checks": xs["failures"], "samples": xs.get("samples", [])[:6], "unavailable": xs["undecided"],
+                                  "seconds": round(xs["wall_s"], 2), "cmd": xs["cmd"]} if xs else None),
             "undecided": undecided,
             "exhaustive": False,
         },
